@@ -160,6 +160,77 @@ def gen_scripts(seed, n, thorough):
     return out
 
 
+def nowait_script(rnd, sid):
+    """fire-and-forget messages (SendNoWait) between awaited requests; the peer answers them too, while a later
+    awaited request is outstanding: the answer to a no-wait message must reach nobody"""
+    version = rnd.choice([1, 1, 2])
+    b = cc.SB(sid, version=version, default_handler=rnd.choice([None, dict(mode="all", k=0)]))
+    b.connect(cur=rnd.choice([1, 2]), mx=2)
+    tag = rnd.randrange(1, 1 << 20) * 64
+    c, awaited, nowait = 1, [], []
+    for i in range(rnd.randrange(2, 5)):
+        if rnd.random() < 0.6 or not nowait:
+            b.send(c, rnd.choice(REQ_TYPES), 1 + rnd.randrange(0, 60), tag + c, api="SendNoWait", ver=1)
+            nowait.append(c)
+            c += 1
+        b.send(c, rnd.choice(REQ_TYPES), 1 + rnd.randrange(0, 60), tag + c)
+        awaited.append(c)
+        c += 1
+        # the peer answers the latest no-wait message while the awaited request is outstanding
+        nw = nowait[-1]
+        b.reply_to(nw, resp_type(b.reqs[nw]["typ"]), rnd.choice([0, 3, 40]), tag + 100 + c)
+        b.wait(awaited[-1])
+    rnd.shuffle(awaited)
+    for a in awaited:
+        b.reply_to(a, resp_type(b.reqs[a]["typ"]), rnd.choice([0, 5, 90]), tag + 200 + a)
+        b.wait(a)
+    b.op("drain")
+    sc = b.script()
+    sc["family"] = "nowait"
+    return sc
+
+
+def oversize_script(rnd, sid):
+    """one reply just beyond the buffering limit: the caller must get an error or the full bytes"""
+    b = cc.SB(sid, version=rnd.choice([1, 2]))
+    b.connect()
+    tag = rnd.randrange(1, 1 << 20) * 64
+    b.send(1, rnd.choice(REQ_TYPES), 9, tag + 1)
+    b.send(2, rnd.choice(REQ_TYPES), 9, tag + 2)
+    b.reply_to(1, 1023, 655361, tag + 3)
+    b.wait(1)
+    b.reply_to(2, 1023, 17, tag + 4)
+    b.wait(2).wait(1)
+    b.op("drain")
+    sc = b.script()
+    sc["family"] = "oversize"
+    return sc
+
+
+def cutreply_script(rnd, sid):
+    """the connection dies after the header (and part of the payload) of an awaited reply: the caller must get an
+    error, never a success. Go only (judged by the predicate). The logger's MsgHandled is slowed down so that the
+    caller looks at its reply channel before the read loop's error has closed the client."""
+    b = cc.SB(sid, version=1)
+    b.connect_step["slow_handled_ms"] = rnd.choice([0, 20, 40])
+    b.connect()
+    tag = rnd.randrange(1, 1 << 20) * 64
+    others = rnd.randrange(0, 3)
+    for c in range(1, 2 + others):
+        b.send(c, rnd.choice(REQ_TYPES), 1 + rnd.randrange(0, 40), tag + c)
+    n = rnd.choice([1, 8, 100, 5000])
+    cut = 10 + rnd.randrange(0, n)            # the header and 0..n-1 payload bytes get through
+    b.steps.append(dict(op="reply", to=b.req_index[1], typ=resp_type(b.reqs[1]["typ"]),
+                        pl=dict(k="tag", len=n, tag=tag + 50), cut=cut))
+    b.op("peer_close")
+    for c in range(1, 2 + others):
+        b.wait(c)
+    b.op("wait_connect")
+    sc = b.script()
+    sc["family"] = "cutreply"
+    return sc
+
+
 def witness_script():
     """the hand-confirmed defect: request outstanding, KeepAlive with the same id"""
     b = cc.SB("c03-witness", version=1)
@@ -191,11 +262,18 @@ def run(tier, seed, replay=None):
         return res.finish()
     thorough = tier == "thorough"
     rp_data = {}
+    pred_only = []
     if replay:
         rp_data = json.load(open(replay))
         scripts = [rp_data["script"]] if "script" in rp_data else []
+        if scripts and scripts[0].get("family") in ("cutreply",):
+            pred_only, scripts = scripts, []
     else:
-        scripts = [witness_script()] + gen_scripts(seed, 4000 if thorough else 480, thorough)
+        rx = random.Random(seed + 3)
+        scripts = ([witness_script()] + gen_scripts(seed, 4000 if thorough else 400, thorough)
+                   + [nowait_script(rx, "c03-nowait-%d" % i) for i in range(200 if thorough else 40)]
+                   + [oversize_script(rx, "c03-oversize-%d" % i) for i in range(6 if thorough else 1)])
+        pred_only = [cutreply_script(rx, "c03-cutreply-%d" % i) for i in range(120 if thorough else 24)]
     scripts = cc.staged(exe, scripts, lambda s_, g_: bool(cc.pred_c03(cc.go_view(s_, g_))))
     go, logs = cc.run_go(exe, scripts, shards=8)
     variant, diffs, counts = cc.pick_variant(scripts, go)
@@ -244,6 +322,23 @@ def run(tier, seed, replay=None):
                 res.violation("correspondence:C03/script", "Go and the model disagree on script %s though C03 holds on Go's run: %s" % (
                     s["id"], "; ".join(d2[:4])), dict(kind="correspondence", correspondence="C03/client-script", script=s,
                                                       differences=d2[:10]), False)
+
+    # Go-only scenarios, judged by the predicate alone
+    for s, g in cc.run_pred_only(exe, pred_only):
+        evals += 1
+        dist[s["family"]] = dist.get(s["family"], 0) + 1
+        if g is None or g.get("st") in ("watchdog", "skipped", "crash"):
+            if "crash" not in reported:
+                reported.add("crash")
+                cc.crash_violation(res, PID, s, g)
+            continue
+        view = cc.go_view(s, g)
+        nontriv.add((s["id"], len(view["reqs"])))
+        for sig, text in cc.pred_c03(view):
+            if sig not in reported:
+                reported.add(sig)
+                res.violation(sig, "%s [script %s]" % (text, s["id"]), dict(kind="script", script=s, observed=g,
+                                                                           theorem="C03_result_is_delivery"))
 
     # stress: many callers, random reply order, unsolicited frames with random (and colliding) ids
     stress = []
